@@ -31,17 +31,24 @@ def main() -> None:
     out = []
     rng = random.Random(seed)
     for i in range(count):
-        w = World(random.Random(rng.getrandbits(48)), n_veh=(3, 9), n_stn=(2, 4), n_base=(1, 2), search_res=7, with_fleets=True, with_humans=True)
+        queue = rng.random() < 0.35
+        if queue:
+            # contention: every vehicle stands at the one station (1-2 plugs of one type) and wants to charge in the
+            # same step, so several join the queue with the same enqueue time and plugs free up while they wait
+            w = World(random.Random(rng.getrandbits(48)), n_veh=(4, 7), search_res=7, queue_scenario=True, dt_choices=(300, 600))
+        else:
+            w = World(random.Random(rng.getrandbits(48)), n_veh=(3, 9), n_stn=(2, 4), n_base=(1, 2), search_res=7, with_fleets=True, with_humans=True)
         env = w.env
         # thresholds that make the charging fleet manager act on many vehicles (tied station rankings matter)
         env = env._replace(config=env.config._replace(dispatcher=env.config.dispatcher._replace(
-            charging_range_km_threshold=rng.choice([20.0, 150.0, 400.0]), charging_range_km_soft_threshold=rng.choice([50.0, 400.0]),
+            charging_range_km_threshold=400.0 if queue else rng.choice([20.0, 150.0, 400.0]),
+            charging_range_km_soft_threshold=400.0 if queue else rng.choice([50.0, 400.0]),
             charging_search_type=rng.choice(list(type(env.config.dispatcher.charging_search_type))))))
         step_fn = StepSimulation.from_tuple((Dispatcher(env.config.dispatcher), ChargingFleetManager(env.config.dispatcher)))
         sim = w.sim0
         digs = []
         err = None
-        for k in range(rng.randint(3, 8)):
+        for k in range(rng.randint(10, 16) if queue else rng.randint(3, 8)):
             for _ in range(rng.choice([0, 1, 2, 4])):
                 sim = simulation_state_ops.add_request_safe(sim, w.new_request(sim)).unwrap()
             env.reporter.reports = []
